@@ -50,7 +50,7 @@ def decompose_unmarshal(T, x, defs, env):
         return ms, ins, lambda rs: {rs[i]: rs[i + 1] for i in range(0, len(rs), 2)}
     if k == "cls":
         d = defs[T["c"]]
-        ftypes = {f[0]: f[1] for f in d["fields"]}
+        ftypes = {f[0]: f[1] for f in d["fields"] if f[1]["k"] != "classvar"}     # class-level names are not members
         if isinstance(x, dict):
             items = [(a, b) for a, b in x.items() if a in ftypes]
         elif isinstance(x, list) and x and all(isinstance(p, (list, tuple)) and len(p) == 2 for p in x):
@@ -84,7 +84,7 @@ def decompose_marshal(T, v, defs, env):
         return ms, ins, lambda rs: {rs[i]: rs[i + 1] for i in range(0, len(rs), 2)}
     if k == "cls":
         d = defs[T["c"]]
-        names = [f[0] for f in d["fields"]]
+        names = [f[0] for f in d["fields"] if f[1]["k"] != "classvar"]
         if isinstance(v, dict):
             names = [n for n in names if n in v]
             ins = [v[n] for n in names]
@@ -104,12 +104,21 @@ def source_shapes(w, rng):
         pass
     out.append(("repr", repr(w)))
     if isinstance(w, dict) and w:
-        out.append(("pairs", [[a, b] for a, b in w.items()]))
+        pairs = [[a, b] for a, b in w.items()]
+        out.append(("pairs", pairs))
+        # one-shot sources of the same pairs: a generator, and iterators that are not generators
+        out.append(("pairs_generator", ("lazy", pairs, lambda: (p for p in pairs))))
+        out.append(("pairs_zip", ("lazy", pairs, lambda: zip(list(w.keys()), list(w.values())))))
+        out.append(("pairs_iter", ("lazy", pairs, lambda: iter([tuple(p) for p in pairs]))))
+        out.append(("pairs_map", ("lazy", pairs, lambda: map(tuple, pairs))))
+        out.append(("items_view", ("lazy", pairs, lambda: dict(w).items())))
         if all(isinstance(a, str) and a.isidentifier() for a in w):
             out.append(("object", pytypes.SimpleNamespace(**w, unrelated_extra=1)))
     if isinstance(w, list):
         out.append(("tuple", tuple(w)))
-        out.append(("generator", ("gen", w)))
+        out.append(("generator", ("lazy", w, lambda: (e for e in w))))
+        out.append(("iter", ("lazy", w, lambda: iter(list(w)))))
+        out.append(("map", ("lazy", w, lambda: map(lambda e: e, w))))
     return out
 
 
@@ -147,8 +156,8 @@ def collect(ctx: Ctx, profile: str):
                     continue
                 # ---- unmarshal side, every documented source shape of the wire value
                 for sname, x in source_shapes(wv, rng):
-                    gen = isinstance(x, tuple) and len(x) == 2 and x[0] == "gen"
-                    xin = (e for e in x[1]) if gen else x
+                    gen = isinstance(x, tuple) and len(x) == 3 and x[0] == "lazy"
+                    xin = x[2]() if gen else x
                     whole_u, _ = vs.out_of(typelib.unmarshal, ann, xin)
                     base = wv if sname in ("json", "jsonbytes", "repr") else (x[1] if gen else x)
                     du = decompose_unmarshal(T, base, defs, env)
@@ -191,7 +200,7 @@ def run(ctx: Ctx) -> Outcome:
            "rule": "every composite type of the TLC universe (collections, mappings, fixed tuples, 15 structured classes incl. same-named "
                    "classes in two modules, shared field names, recursive and mutually recursive ones, aliases as members) x pool values: "
                    "marshal whole vs rebuilt from member marshals; then the wire value in every documented source shape (mapping, pairs, JSON "
-                   "text/bytes, repr text, foreign object, tuple, generator) unmarshalled whole vs rebuilt from independently obtained member "
+                   "text/bytes, repr text, foreign object, tuple, and one-shot sources: generator, iter(), map(), zip(), items view) unmarshalled whole vs rebuilt from independently obtained member "
                    "routines; class types are visited in both orders; non-trivial = composite succeeded, distinct by (type, direction, shape, value)",
            "samples": [events[len(events) // 3], events[-1]]}
     return Outcome(level="model_checking", coverage=cov, violations=viol,
